@@ -155,6 +155,9 @@ def gen_tree(rng, depth, want, budget):
             return ("set", tuple(gen_tree(rng, max(0, depth - 2), ek, budget) for _ in range(n)))
         if r < 0.7:
             return ("bin", rng.choice(["|", "&", "^"]), gen_tree(rng, depth - 1, want, budget), gen_tree(rng, depth - 1, want, budget))
+        if ek in ("r", "s") and r > 0.93:
+            # the least / greatest element of a set of sets (ordered by inclusion)
+            return ("attr", gen_tree(rng, depth - 1, "set-" + want, budget), rng.choice(["min", "max"]))
         if ek == "r":
             op = rng.choice(["+", "-", "*", "/", "%", "**"])
             if op == "**":
@@ -219,6 +222,11 @@ def gen_tree(rng, depth, want, budget):
                 right = ("set", tuple(els[:-1]))
             else:
                 right = ("set", tuple(els + [gen_tree(rng, 0, k[4:], budget)]))
+            if k == "set-s" and right[0] == "set":
+                # canonically equivalent spellings of the same strings (NFC <-> NFD) are the same elements
+                import unicodedata
+
+                right = ("set", tuple(("str", unicodedata.normalize(rng.choice(["NFC", "NFD"]), e[1])) if e[0] == "str" and rng.random() < 0.6 else e for e in right[1]))
             if rng.random() < 0.5:
                 left, right = right, left
         else:
@@ -236,10 +244,25 @@ def small_exponent(rng):
     return ("int", e)
 
 
+def no_extremum(rng):
+    """min / max of a set of sets none of which is included in (includes) all others: inclusion is only a partial order."""
+    a, b = rng.sample(range(1, 30), 2)
+    mk = (lambda x: ("int", x)) if rng.random() < 0.7 else (lambda x: ("str", "s%d" % x))
+    els = [("set", (mk(a),)), ("set", (mk(b),))]
+    which = rng.choice(["min", "max"])
+    if rng.random() < 0.4:
+        # an element that is comparable with all others, but at the wrong end
+        els.append(("set", (mk(a), mk(b))) if which == "min" else ("set", (mk(a), mk(b), mk(31))))
+        if which == "max":
+            els = [("set", (mk(a), mk(31))), ("set", (mk(b), mk(31))), ("set", (mk(31),))]
+    rng.shuffle(els)
+    return ("attr", ("set", tuple(els)), which)
+
+
 def inject_error(rng, t):
     """Replaces one sub-tree so that the expression becomes undefined in a known way. Returns (tree, error class)."""
     kind = rng.choice(["type-mismatch", "div-zero", "mod-zero", "bitwise-nonint", "empty-set", "empty-intersection",
-                       "heterogeneous-set", "heterogeneous-nested-set", "unknown-attribute", "unknown-identifier", "order-strings", "logic-nonbool",
+                       "heterogeneous-set", "heterogeneous-nested-set", "no-least-element", "unknown-attribute", "unknown-identifier", "order-strings", "logic-nonbool",
                        "not-nonbool", "set-vs-scalar-compare", "neg-string", "attr-on-scalar", "zero-neg-power"])
     r = lambda w: gen_tree(rng, 1, w, [1])  # noqa
     bad = {
@@ -251,6 +274,7 @@ def inject_error(rng, t):
         "empty-intersection": lambda: ("bin", "&", ("set", (("int", 1), ("int", 2))), ("set", (("int", 3),))),
         "heterogeneous-set": lambda: ("set", (r("r"), r(rng.choice(["b", "s"])))),
         "heterogeneous-nested-set": lambda: ("set", (r("set-r"), r(rng.choice(["set-s", "set-b", "set-set-r"])))),
+        "no-least-element": lambda: no_extremum(rng),
         "unknown-attribute": lambda: ("attr", r("set-r"), rng.choice(["size", "length", "Min", "first"])),
         "unknown-identifier": lambda: ("id", rng.choice(["UNKNOWN", "k7", "_x", "offset"])),
         "order-strings": lambda: ("bin", rng.choice(["<", ">="]), r("s"), r("s")),
